@@ -82,6 +82,7 @@ class Session:
 
     def do(self, line):
         out = self.h.send(line)
+        if line.startswith("@"): line = line[1:]; self.count("api-call-from-inside-a-handler")
         if out is None:
             self.crashed = (line, self.h.dead); self.tr.append((line, ["<crash>"], 0, self.now)); return []
         if out == "bad-op":
@@ -111,14 +112,26 @@ class Session:
         sid = self.sid
         pk = self.write_pending.pop(sid, None)
         if pk is None: return
+        early = False
         for w in reversed(self.wlog):
             if w["result"] is None and w["pk"] == pk:
                 w["result"] = ec; w["i_done"] = len(self.tr)
-                if ec == "ok": w["delivered"] = len(pk)
+                early = w.get("early", False)
+                if ec == "ok" or early: w["delivered"] = len(pk)
                 delivered = w["delivered"]; break
-        if ec == "ok":
+        if ec == "ok" and not early:
             for b in pk: self.broker_receive(b)      # a failed write delivered what the fault injector decided earlier
         self.do(f"wdone {sid} {ec}" + (f" #delivered={delivered}" if ec != "ok" else ""))
+
+    def deliver_early(self):
+        """the bytes of the write in progress reach the broker before the client learns that the write completed"""
+        pk = self.write_pending.get(self.sid)
+        if pk is None: return
+        for w in reversed(self.wlog):
+            if w["result"] is None and w["pk"] == pk:
+                if w.get("early"): return
+                w["early"] = True; w["delivered"] = len(pk); break
+        for b in pk: self.broker_receive(b)
 
     def rx(self, data):
         sid = self.sid
